@@ -30,59 +30,48 @@ Theorem C18_reject_reports_digest : forall (H : str -> str) (s d : str),
 Proof. exact reject_reports_digest. Qed.
 Print Assumptions C18_reject_reports_digest.
 
-(* the fix: what it writes is that digest, the digest is accepted afterwards, and
-   Replace changes nothing else: either the texts stay as they are, or exactly
-   one occurrence of the stale hash in one text is replaced *)
+(* the fix (ReplaceAfter(") = ", old, new)): what it writes is that digest, the digest
+   is accepted afterwards, and nothing else changes: either the texts stay as they
+   are, or exactly one occurrence of ") = " ++ stale hash in one text is replaced *)
 Theorem C18_fix_then_accept : forall (H : str -> str) (s d h : str),
   check_patch_sha1 H (Some s) d = Differs d h ->
   h = makepatchsum H s /\ check_patch_sha1 H (Some s) h = Silent /\
   forall texts,
     fix_distinfo_line texts (Differs d h) = texts \/
     exists before pre post after,
-      texts = before ++ (pre ++ d ++ post) :: after /\
-      fix_distinfo_line texts (Differs d h) = before ++ (pre ++ h ++ post) :: after.
+      texts = before ++ (pre ++ (entry_sep ++ d) ++ post) :: after /\
+      fix_distinfo_line texts (Differs d h) = before ++ (pre ++ (entry_sep ++ h) ++ post) :: after.
 Proof. exact fix_then_accept. Qed.
 Print Assumptions C18_fix_then_accept.
 
-(* "the fix always writes the digest" is false of the code: Replace refuses when
-   the stale hash occurs twice in the line *)
-Definition C18_fix_always_full : Prop :=
-  forall (H : str -> str) s d h pre post,
-    check_patch_sha1 H (Some s) d = Differs d h ->
-    fix_distinfo_line [pre ++ d ++ post] (Differs d h) = [pre ++ h ++ post].
-
-Theorem C18_fix_always_refuted : ~ C18_fix_always_full.
-Proof. exact fix_always_refuted. Qed.
-Print Assumptions C18_fix_always_refuted.
-
-(* with the Replace precondition spelled out (counted once, first = last
-   occurrence) the line becomes pre ++ digest ++ post and is accepted *)
-Theorem C18_fix_always_partial : forall (H : str -> str) (s d h t : str) (i : nat),
+(* the full statement, true since the repair of checkPatchSha1: for every entry
+   line SHA1 (name) = d LF of the distinfo grammar (no ")" in the name, no blank in
+   the hash) with a wrong hash d, the fix turns the line into SHA1 (name) = digest LF
+   and the entry is accepted afterwards -- whatever else the line contains, e.g. the
+   stale hash inside the file name *)
+Theorem C18_fix_always : forall (H : str -> str) (s d h name : str),
+  name_ok name = true -> hash_ok d = true ->
   check_patch_sha1 H (Some s) d = Differs d h ->
-  str_count t d = 1 -> str_index t d = Some i -> str_last_index t d = Some i ->
-  exists pre post, t = pre ++ d ++ post /\ length pre = i /\
-    fix_distinfo_line [t] (Differs d h) = [pre ++ h ++ post] /\
-    check_patch_sha1 H (Some s) h = Silent.
-Proof. exact fix_then_accept_partial. Qed.
-Print Assumptions C18_fix_always_partial.
+  fix_distinfo_line [entry_line name d] (Differs d h) = [entry_line name h] /\
+  h = makepatchsum H s /\ check_patch_sha1 H (Some s) h = Silent.
+Proof. exact fix_always. Qed.
+Print Assumptions C18_fix_always.
 
 (* Package.AutofixDistinfo(old, new) runs after a patch file was rewritten by -F.
-   "It only rewrites the entry of that patch (line i)" is false of the code: every
-   distinfo line that records the same hash is rewritten, also the correct entry
-   of another patch with the same digest *)
-Definition C18_autofix_distinfo_full : Prop :=
-  forall lines old new (i j : nat) texts, j <> i ->
-    nth_error lines j = Some texts -> nth_error (autofix_distinfo lines old new) j = Some texts.
-
-Theorem C18_autofix_distinfo_refuted : ~ C18_autofix_distinfo_full.
-Proof. exact autofix_distinfo_refuted. Qed.
-Print Assumptions C18_autofix_distinfo_refuted.
-
-(* guard: a line in which the old hash is not counted exactly once is left alone *)
-Theorem C18_autofix_distinfo_partial : forall lines old new (j : nat) texts,
-  nth_error lines j = Some texts ->
-  fold_left (fun n t => n + str_count t old) texts 0 <> 1 ->
+   Since its repair the entry of a patch whose own digest is not the new one is
+   never touched: a correct entry of another patch with the same old digest stays
+   correct *)
+Theorem C18_autofix_distinfo_keeps : forall lines old new (j : nat) texts other,
+  nth_error lines j = Some (texts, Some other) -> other <> new ->
   nth_error (autofix_distinfo lines old new) j = Some texts.
+Proof. exact autofix_distinfo_keeps. Qed.
+Print Assumptions C18_autofix_distinfo_keeps.
+
+(* and any line in which the old hash is not counted exactly once is left alone *)
+Theorem C18_autofix_distinfo_partial : forall lines old new (j : nat) l,
+  nth_error lines j = Some l ->
+  fold_left (fun n t => n + str_count t old) (fst l) 0 <> 1 ->
+  nth_error (autofix_distinfo lines old new) j = Some (fst l).
 Proof. exact autofix_distinfo_partial. Qed.
 Print Assumptions C18_autofix_distinfo_partial.
 
@@ -99,11 +88,19 @@ Example C18_witness_check :
   check_patch_sha1 (fun x => x) (Some ex_patch) [48] = Differs [48] [97;10;98].
 Proof. split; vm_compute; reflexivity. Qed.
 
-(* the hypotheses of the partial theorem are satisfiable: "SHA1 (patch-aa) = 0\n" *)
-Definition ex_entry : str := [83;72;65;49;32;40;112;97;116;99;104;45;97;97;41;32;61;32;48;10].
+(* the former counter-example: SHA1 (patch-0) = 0 -- the stale hash also occurs in the
+   file name; the fix now writes the digest *)
 Example C18_witness_fix :
-  str_count ex_entry [48] = 1 /\ str_index ex_entry [48] = Some 18%nat /\
-  str_last_index ex_entry [48] = Some 18%nat /\
-  fix_distinfo_line [ex_entry] (Differs [48] [49;50]) =
-    [[83;72;65;49;32;40;112;97;116;99;104;45;97;97;41;32;61;32;49;50;10]].
+  name_ok [112;97;116;99;104;45;48] = true /\ hash_ok [48] = true /\
+  fix_distinfo_line [entry_line [112;97;116;99;104;45;48] [48]] (Differs [48] [49;50]) =
+    [entry_line [112;97;116;99;104;45;48] [49;50]].
 Proof. repeat split; vm_compute; reflexivity. Qed.
+
+(* the former twin counter-example: patch-aa was rewritten (its digest is now 1),
+   patch-ab still has digest 0: only the first entry follows *)
+Definition twin_aa : str := entry_line [112;97;116;99;104;45;97;97] [48].
+Definition twin_ab : str := entry_line [112;97;116;99;104;45;97;98] [48].
+Example C18_witness_twin :
+  autofix_distinfo [([twin_aa], Some [49]); ([twin_ab], Some [48])] [48] [49]
+  = [[entry_line [112;97;116;99;104;45;97;97] [49]]; [twin_ab]].
+Proof. vm_compute. reflexivity. Qed.
